@@ -106,6 +106,8 @@ def make_replayer():
             want = ['sum-value']
         if ob.kind.startswith('minmax-') or ob.kind.startswith('max-'):
             want = ['minmax-accepts']
+        if ob.kind.startswith('dot-'):
+            want = ['dot-accepts']
         if ob.kind.startswith('operator-'):
             want = ['binop-value', 'index-value']
         if ob.kind.startswith('binop-'):
@@ -182,6 +184,16 @@ def run(report, tier, seed):
             report.add(Ob(o['id'], o['kind'], o['status'], o['text'],
                           'modeling.py', by=o['by'], detail=o.get('detail'),
                           meta={'line': o['line']}))
+    except KeyError as e:
+        report.error('function under contract no longer exists: %s' % e)
+    try:
+        for o in relational_spec.dot_obligations(
+                10000 if tier == 'quick' else 60000):
+            report.add(Ob(o['id'], o['kind'], o['status'], o['text'],
+                          'modeling.py line %s' % o['line'], by=o['by'],
+                          detail=o.get('detail'), meta={'line': o['line']}))
+        if 'modeling.py:dot' not in report.functions:
+            report.functions.append('modeling.py:dot')
     except KeyError as e:
         report.error('function under contract no longer exists: %s' % e)
     from contracts.py import keytolist_spec
